@@ -69,6 +69,8 @@ const ADVERSARIAL: &[&str] = &[
     "for i = 1, 'x', {} do local i <const> = i; i = i + 1 end\nfor k, v in 1, 2, 3, 4 do end\nfor _ in nil do end\n",
     "local s = ('x'):rep(3):upper():nope():len()\nlocal n = #s .. #n\nlocal b = not not nil == (1 < 'a')\n",
     "return function(...) local a, b = ..., select('#', ...) return a(b, ...)(...) end, ...\n",
+    "---@alias A<T> A<T> extends string and T or never\n---@generic T\n---@param v T\n---@return A<T>\nfunction f(v) end\nX = f(1)\n",
+    "---@alias R<T> R<T[]>\n---@alias Q<T> T extends any and Q<T> or T\n---@type R<integer>\nlocal r\n---@type Q<string>\nlocal q\nprint(r[1], q.x)\n",
 ];
 
 struct Case {
